@@ -6,7 +6,8 @@ From SG Require Import State.Contexts Proofs.ContextsProofs.
 
 (* no_grad / retain_grads restore the mode in force when they were entered: for every state (any
    earlier history), every object, every well-bracketed body (any nesting depth, the same object
-   possibly re-entered, objects created anywhere, exits by exception or not). *)
+   possibly re-entered, objects created anywhere, exits by exception or not, any other library call -
+   tensor creation, operations, backward whether it completes or is refused - anywhere in between). *)
 Theorem ctx_block_restores :
   forall s o exc body s', wb body ->
     run s (Enter o :: body ++ [Exit o exc]) = Some s' ->
@@ -47,6 +48,18 @@ Proof.
   split; [|split; reflexivity].
   apply wb_new, wb_new. apply (wb_block 1 true [Enter 0; Exit 0 false] []); [|constructor].
   apply (wb_block 0 false [] []); constructor.
+Qed.
+
+(* non-vacuity with calls in between: with no_grad(): y.backward(); (with retain_grads(): x*2) *)
+Example ctx_example_calls :
+  let t := [New KNoGrad; Enter 0; Call; New KRetain; Enter 1; Call; Exit 1 false; Call; Exit 0 true; Call] in
+  wb t /\ refs_ok 0 t = true /\
+  trace init t = [Some (true,false); Some (false,false); Some (false,false); Some (false,false); Some (false,true);
+                  Some (false,true); Some (false,false); Some (false,false); Some (true,false); Some (true,false)].
+Proof.
+  split; [|split; reflexivity].
+  apply wb_new. apply (wb_block 0 true [Call; New KRetain; Enter 1; Call; Exit 1 false; Call] [Call]); [|apply wb_call; constructor].
+  apply wb_call, wb_new. apply (wb_block 1 false [Call] [Call]); apply wb_call; constructor.
 Qed.
 
 (* flag resolution at tensor creation *)
